@@ -21,7 +21,7 @@ INFO = {
                    "Node variant with operands values[a] (values = results pushed so far, in node order) and returns values[outputs[i]] for "
                    "i in 0..len(outputs), in order; get_inputs_buffer sets slot 0 to 1; populate_inputs stores value[i] at offset+i with "
                    "(offset,len) looked up by the same key and writes nothing else (so the result cannot depend on map iteration order "
-                   "when declared ranges are disjoint). R20-6 (shared with C19 R19-2..R19-5): the operators the evaluator dispatches to realise circom's signed comparison table, reduce before every from_bigint, guard division and modulo by zero, bound the whole shift amount before any truncated read, and take integer quotient and remainder on the whole values. R20-7 (shared with C05 R05-1): evaluation reaches no thread-local or process-wide state.",
+                   "when declared ranges are disjoint). R20-6 (shared with C19 R19-2..R19-5): the operators the evaluator dispatches to realise circom's signed comparison table, reduce before every from_bigint, guard division and modulo by zero, bound the whole shift amount before any truncated read, and take integer quotient and remainder on the whole values. R20-7 (shared with C05 R05-1): evaluation reaches no thread-local or process-wide state. R20-6 includes C19 R19-7.",
     "not_decided": "agreement of evaluation with a reference interpretation on arbitrary DAGs (numeric; the operator arithmetic is C19's), "
                    "WriteBackReader's reversed-buffer arithmetic (only its fill-or-EOF contract is decided, R20-5), prost's encoding itself",
     "assumptions": ["prost encode_length_delimited/decode_length_delimiter/Message::decode are mutually inverse", "byteorder read_u64/write_u64 with the same endianness type are inverse"],
